@@ -62,7 +62,7 @@ Print Assumptions C12_example_deliverable.
    the reader reports the end of the input.  No bound on the number of lines.
    (_partial: layouts with character literals, in-line comments, ';', fixed form, preprocessor
    lines and sentinels are tied to this model by the correspondence, not by this theorem.) *)
-From FV Require Import ReaderJoin ReaderItem ReaderJoinQ ReaderFile.
+From FV Require Import ReaderJoin ReaderItem ReaderJoinQ ReaderJoinG ReaderFile.
 Theorem C12_whole_file_each_statement_once_in_order_partial :
   forall (ign : bool) (ls : list lay), Forall good ls ->
     read_source (flat_map phys ls) true false ign = items ign ls 0.
@@ -81,7 +81,7 @@ Goal True. idtac "ASSUMPTIONS-OF C12_rest_of_file_each_statement_once_in_order_p
 Print Assumptions C12_rest_of_file_each_statement_once_in_order_partial.
 
 (* the hypotheses are satisfiable: a labelled, named statement over three lines, a comment, an empty
-   line and a one-line statement *)
+   line and a one-line statement ... and a statement whose every line carries a trailing comment *)
 Definition ex_file : list lay :=
   [LCont (s2t " 10 nm: x = a +&") (Some 10%N) (Some (s2t "nm")) (s2t "x = a +") [(s2t "   ", s2t " b *")] (s2t "  ") (s2t " c");
    LCom (s2t "  ") (s2t " note"); LBlank;
@@ -90,24 +90,32 @@ Definition ex_file : list lay :=
    LSemi (s2t "20 a = 1; b = 2 ;c = 3") (Some 20%N) None (s2t "a = 1") [s2t " b = 2 "; s2t "c = 3"]
          [(s2t "b = 2", None, None); (s2t "c = 3", None, None)];
    LContQ (s2t "w = 'a!b&") None None (s2t "w = 'a!b") (Some "'"%char) [] (s2t "  ") (s2t "c d'");
-   LOne (s2t "  call s(1, 2)") None None (s2t "  call s(1, 2)")].
+   LOne (s2t "  call s(1, 2)") None None (s2t "  call s(1, 2)");
+   LContG (s2t "v = a + &   ! first") None None (s2t "v = a + &   ! first") (s2t "v = a + ") (s2t "   ") None (Some (s2t "! first"))
+          [GMid (s2t " ") (s2t " b + ") (s2t "  ") (s2t " b + &  ! second") (Some (s2t "! second")) None; GCom (s2t "   ! own line")]
+          (s2t " ") (s2t " 'c!d'   ") (s2t " 'c!d'   ! third") (Some (s2t "! third"))].
 Example C12_example_whole_file : Forall good ex_file /\
   flat_map phys ex_file = [s2t " 10 nm: x = a +&"; s2t "   & b *&"; s2t "  & c"; s2t "  ! note"; []; s2t "  z = 2 ! set z";
                            s2t "y = f(&"; s2t "   ! inside"; s2t " &1, &"; []; s2t "&2)";
-                           s2t "20 a = 1; b = 2 ;c = 3"; s2t "w = 'a!b&"; s2t "  &c d'"; s2t "  call s(1, 2)"] /\
+                           s2t "20 a = 1; b = 2 ;c = 3"; s2t "w = 'a!b&"; s2t "  &c d'"; s2t "  call s(1, 2)";
+                           s2t "v = a + &   ! first"; s2t " & b + &  ! second"; s2t "   ! own line"; s2t " & 'c!d'   ! third"] /\
   items false ex_file 0 = [RLine (s2t "x = a + b * c") (Some 10%N) (Some (s2t "nm")) 1 3;
                            RComment (s2t "! note") 4 4 false; RComment [] 5 5 false;
                            RLine (s2t "z = 2") None None 6 6; RComment (s2t "! set z") 6 6 true;
                            RLine (s2t "y = f(1, 2)") None None 7 11; RComment (s2t "! inside") 8 8 false;
                            RLine (s2t "a = 1") (Some 20%N) None 12 12; RLine (s2t "b = 2") None None 12 12;
                            RLine (s2t "c = 3") None None 12 12; RLine (s2t "w = 'a!bc d'") None None 13 14;
-                           RLine (s2t "call s(1, 2)") None None 15 15] /\
+                           RLine (s2t "call s(1, 2)") None None 15 15;
+                           RLine (s2t "v = a +  b +  'c!d'") None None 16 19;
+                           RComment (s2t "! first") 16 16 true; RComment (s2t "! second") 17 17 true;
+                           RComment (s2t "! own line") 18 18 false; RComment (s2t "! third") 19 19 true] /\
   items true ex_file 0 = [RLine (s2t "x = a + b * c") (Some 10%N) (Some (s2t "nm")) 1 3;
                           RLine (s2t "z = 2") None None 6 6;
                           RLine (s2t "y = f(1, 2)") None None 7 11;
                           RLine (s2t "a = 1") (Some 20%N) None 12 12; RLine (s2t "b = 2") None None 12 12;
                           RLine (s2t "c = 3") None None 12 12; RLine (s2t "w = 'a!bc d'") None None 13 14;
-                          RLine (s2t "call s(1, 2)") None None 15 15] /\
+                          RLine (s2t "call s(1, 2)") None None 15 15;
+                          RLine (s2t "v = a +  b +  'c!d'") None None 16 19] /\
   read_source (flat_map phys ex_file) true false false = items false ex_file 0.
 Proof.
   split; [|split; [|split; [|split]]].
@@ -121,6 +129,9 @@ Proof.
     | |- Forall _ _ => repeat constructor; first [vm_compute; reflexivity | exact I]
     | |- mids_ok _ => repeat constructor; vm_compute; reflexivity
     | |- nocom _ _ _ => intros n; vm_compute; reflexivity
+    | |- hicr _ _ _ _ _ => intros n; vm_compute; reflexivity
+    | |- chain_g _ _ _ _ _ _ => cbn [chain_g]; repeat split; try (vm_compute; reflexivity);
+                               try (intros n; vm_compute; reflexivity); eexists; intros n; vm_compute; reflexivity
     | |- chain_ok _ _ _ _ => cbn [chain_ok]; eexists; intros n; vm_compute; reflexivity
     | |- _ => vm_compute; reflexivity
     end.
